@@ -151,3 +151,25 @@ func bindParams(fn *ssa.Function, c *ssa.Call) map[*ssa.Parameter]ssa.Value {
 	}
 	return bind
 }
+
+// isDetached: v is a value rebuilt by translateValue (it belongs to no block).
+func isDetached(v ssa.Value) bool {
+	in, ok := v.(ssa.Instruction)
+	return ok && in.Block() == nil
+}
+
+// parentOf: the function a value belongs to (nil for detached values, constants, globals).
+func parentOf(v ssa.Value) *ssa.Function {
+	switch x := v.(type) {
+	case *ssa.Parameter:
+		return x.Parent()
+	case *ssa.FreeVar:
+		return x.Parent()
+	case ssa.Instruction:
+		if x.Block() == nil {
+			return nil
+		}
+		return x.Parent()
+	}
+	return nil
+}
